@@ -1,4 +1,5 @@
 import Rie.Proofs.Sys
+import Rie.Props.RoutesTable
 
 /-!
 # C02 — Only the in-flight request id is accepted, and only once
@@ -102,5 +103,17 @@ theorem C02_refusal_inert_counterexample :
       (rtResponse s (some k) 1 "h" false).out = s.out ++ [.line "rt.response=400,InvalidRequestID"] ∧
       (rtResponse s (some k) 1 "h" false).rt ≠ s.rt := by
   refine ⟨{ rt := some .running, resv := some { k := 1, caller := 0, replySent := true, replyStream := true } }, 1, rfl, rfl, ?_, ?_⟩ <;> decide
+
+/-- **The id is checked before the handler — in the source.** In the route table read from
+    `lambda/rapi/router.go` on every run, the two routes that carry a request id (response, error)
+    — and no others — are registered behind `middleware.AwsRequestIDValidator`, which compares the
+    URL id with the interop server's current id before the handler (hence before any state
+    transition) runs. The model's `rtResponse` / `rtError` start with that comparison
+    (`C02_wrong_id_inert`). -/
+theorem C02_id_validator_in_source :
+    (Rie.Gen.routes.filter (·.2.2.2 == "reqid")).map (fun r => (r.1, r.2.1)) =
+      [("POST", "/2018-06-01/runtime/invocation/{awsrequestid}/response"),
+       ("POST", "/2018-06-01/runtime/invocation/{awsrequestid}/error")] := by
+  rw [RoutesTable.gen_routes_match]; decide
 
 end Rie.Props.C02
